@@ -1,4 +1,7 @@
 import BoltonsVerif.Generated.C19_LineEndings
+import BoltonsVerif.Generated.C19_StripSets
+import BoltonsVerif.Generated.C19_PySplit
+import BoltonsVerif.Generated.C19_RelSeek
 /-
 C19 — model of the boltons line readers.
 
@@ -14,10 +17,17 @@ Transliterations (of the code as it is after the two `fix:` commits):
     (`splitFirst`).  The generator yields the text before each match, an extra `''`
     when the match ends the text, and the non-empty tail (`scan`).
   * `str.splitlines` / `bytes.splitlines` (CPython, the SPEC side): `splitlinesAux`.
-  * `boltons.jsonutils.reverse_iter_lines`: the `while 0 < cur_pos` loop is `revLoop`
-    (fuel = content length, enough because every round moves `cur_pos` down by
-    `min blocksize cur_pos ≥ 1`); a file object is its content plus a position.
-  * `JSONLIterator.next`: `consume`; `json.loads` is a parameter `parse`.
+  * `boltons.jsonutils.reverse_iter_lines`: the `while 0 < cur_pos` loop is `revLoopS`,
+    stated for an ARBITRARY read schedule `rs` (`read_size = min (rs cur_pos) cur_pos`);
+    the code's schedule is the constant one, `revLoop c bs = revLoopS c (fun _ => bs)`
+    (fuel = start position, enough because every round moves `cur_pos` down by
+    `min blocksize cur_pos ≥ 1`); a file object is its content plus a position;
+    `preseek=False` starts the loop at the current position (`reverseIterLinesFrom`).
+  * `JSONLIterator.next`: `consume`; `json.loads` is a parameter `parse`; the line is
+    normalised by `lineNorm` = `.lstrip()` then `.rstrip('\r\n')`, over the two byte sets
+    `Generated.lstripSet` / `Generated.rstripSet` that the translator re-reads from the
+    behaviour of the current code on every run.
+  * `boltons.strutils.indent`: `indent` (join of the `iter_splitlines` lines).
 Core Lean only.
 -/
 namespace C19
@@ -132,27 +142,41 @@ def linesOf (b : List Nat) : List (List Nat) :=
 def flush (buff : List Nat) : List (List Nat) :=
   if buff = [] then [] else (linesOf buff).reverse
 
-/-- `file_obj.seek(pos - read_size); file_obj.read(read_size)` with `read_size = min(bs, pos)` -/
-def block (c : List Nat) (bs pos : Nat) : List Nat :=
-  (c.drop (pos - min bs pos)).take (min bs pos)
+/-- `file_obj.seek(pos - n); file_obj.read(n)` -/
+def blk (c : List Nat) (n pos : Nat) : List Nat := (c.drop (pos - n)).take n
 
-/-- the `while 0 < cur_pos` loop followed by the flush; arguments: fuel, `cur_pos`, `buff` -/
-def revLoop (c : List Nat) (bs : Nat) : Nat → Nat → List Nat → List (List Nat)
+/-- the `while 0 < cur_pos` loop followed by the flush, for an arbitrary READ SCHEDULE `rs`:
+    in the round that starts at `cur_pos = pos` the loop reads `min (rs pos) pos` bytes.
+    Arguments: fuel, `cur_pos`, `buff`.  (The code reads `min blocksize cur_pos`: `revLoop`.) -/
+def revLoopS (c : List Nat) (rs : Nat → Nat) : Nat → Nat → List Nat → List (List Nat)
   | 0, _, buff => flush buff
   | f + 1, pos, buff =>
     if pos = 0 then flush buff
     else
-      match bytesSplitlines (block c bs pos ++ buff) with
+      match bytesSplitlines (blk c (min (rs pos) pos) pos ++ buff) with
       | l0 :: l1 :: ls =>
-        if l0 = [] then revLoop c bs f (pos - min bs pos) (block c bs pos ++ buff)
-        else (if endsNL (block c bs pos ++ buff) then [[]] else []) ++ (l1 :: ls).reverse
-              ++ revLoop c bs f (pos - min bs pos) l0
-      | _ => revLoop c bs f (pos - min bs pos) (block c bs pos ++ buff)
+        if l0 = [] then revLoopS c rs f (pos - min (rs pos) pos) (blk c (min (rs pos) pos) pos ++ buff)
+        else (if endsNL (blk c (min (rs pos) pos) pos ++ buff) then [[]] else []) ++ (l1 :: ls).reverse
+              ++ revLoopS c rs f (pos - min (rs pos) pos) l0
+      | _ => revLoopS c rs f (pos - min (rs pos) pos) (blk c (min (rs pos) pos) pos ++ buff)
+
+/-- the loop as written: `read_size = min(blocksize, cur_pos)` in every round -/
+def revLoop (c : List Nat) (bs : Nat) : Nat → Nat → List Nat → List (List Nat) :=
+  revLoopS c (fun _ => bs)
 
 /-- `list(reverse_iter_lines(file, blocksize))` for a file with content `c` (binary mode; in text
     mode every yielded line is additionally decoded) -/
 def reverseIterLines (c : List Nat) (bs : Nat) : List (List Nat) :=
   revLoop c bs c.length c.length []
+
+/-- `list(reverse_iter_lines(file, blocksize, preseek=False))` with the file position at `p`
+    ("relative reverse line generation": what `JSONLIterator(rel_seek=…, reverse=True)` uses) -/
+def reverseIterLinesFrom (c : List Nat) (p bs : Nat) : List (List Nat) :=
+  revLoop c bs (min p c.length) (min p c.length) []
+
+/-- a different read schedule with the same block size: reads END on multiples of `bs`
+    (the first read takes `pos % bs` bytes, every later one a whole aligned block) -/
+def alignedRead (bs pos : Nat) : Nat := if pos % bs = 0 then bs else pos % bs
 
 /-- every `\r` is immediately followed by `\n` (the contents the statement speaks about) -/
 def noLoneCR : List Nat → Bool
@@ -170,23 +194,104 @@ def sepLines : List Nat → List (List Nat)
     else if c = 10 then [] :: sepLines (d :: cs)
     else consHead c (sepLines (d :: cs))
 
+/-! ### text mode: every yielded line is decoded as UTF-8 -/
+
+def isCont (b : Nat) : Bool := 128 ≤ b && b ≤ 191
+
+/-- well-formed UTF-8; `sp` = lone surrogates (ED A0..BF xx) allowed, as with the error handler
+    'surrogatepass' that `json.loads` uses for bytes; `sp = false` is the strict codec of
+    `line.decode('utf-8')` in `reverse_iter_lines` -/
+def validUtf8G (sp : Bool) : List Nat → Bool
+  | [] => true
+  | b :: rest =>
+    if b < 128 then validUtf8G sp rest
+    else if 194 ≤ b && b ≤ 223 then
+      match rest with
+      | c1 :: r => isCont c1 && validUtf8G sp r
+      | _ => false
+    else if 224 ≤ b && b ≤ 239 then
+      match rest with
+      | c1 :: c2 :: r =>
+        isCont c1 && isCont c2 && (b != 224 || 160 ≤ c1) && (b != 237 || sp || c1 ≤ 159) && validUtf8G sp r
+      | _ => false
+    else if 240 ≤ b && b ≤ 244 then
+      match rest with
+      | c1 :: c2 :: c3 :: r =>
+        isCont c1 && isCont c2 && isCont c3 && (b != 240 || 144 ≤ c1) && (b != 244 || c1 ≤ 143)
+          && validUtf8G sp r
+      | _ => false
+    else false
+
+/-- UTF-8 as accepted by `bytes.decode('utf-8', 'surrogatepass')` -/
+def validUtf8 (l : List Nat) : Bool := validUtf8G true l
+
+/-- UTF-8 as accepted by `bytes.decode('utf-8')`: what a text-mode file holds, and what
+    `reverse_iter_lines` requires of every line it yields in text mode -/
+def strictUtf8 (l : List Nat) : Bool := validUtf8G false l
+
+/-- `bytes.decode('utf-8')` (`sp = false`) / with 'surrogatepass' (`sp = true`): the code points, or
+    `none` where the codec raises UnicodeDecodeError -/
+def decodeG (sp : Bool) : List Nat → Option (List Nat)
+  | [] => some []
+  | b :: rest =>
+    if b < 128 then (decodeG sp rest).map (b :: ·)
+    else if 194 ≤ b && b ≤ 223 then
+      match rest with
+      | c1 :: r =>
+        if isCont c1 then (decodeG sp r).map (((b - 192) * 64 + (c1 - 128)) :: ·) else none
+      | _ => none
+    else if 224 ≤ b && b ≤ 239 then
+      match rest with
+      | c1 :: c2 :: r =>
+        if isCont c1 && isCont c2 && (b != 224 || 160 ≤ c1) && (b != 237 || sp || c1 ≤ 159) then
+          (decodeG sp r).map (((b - 224) * 4096 + (c1 - 128) * 64 + (c2 - 128)) :: ·)
+        else none
+      | _ => none
+    else if 240 ≤ b && b ≤ 244 then
+      match rest with
+      | c1 :: c2 :: c3 :: r =>
+        if isCont c1 && isCont c2 && isCont c3 && (b != 240 || 144 ≤ c1) && (b != 244 || c1 ≤ 143) then
+          (decodeG sp r).map (((b - 240) * 262144 + (c1 - 128) * 4096 + (c2 - 128) * 64 + (c3 - 128)) :: ·)
+        else none
+      | _ => none
+    else none
+
+/-- `list(reverse_iter_lines(text_file, blocksize))`: every line decoded with the strict codec;
+    `none` marks a line on which `line.decode('utf-8')` raises -/
+def reverseIterLinesText (c : List Nat) (bs : Nat) : List (Option (List Nat)) :=
+  (reverseIterLines c bs).map (decodeG false)
+
 /-! ### JSONLIterator -/
 
-/-- what `bytes.lstrip()` strips -/
-def pyWs (c : Nat) : Bool := c == 32 || c == 9 || c == 10 || c == 13 || c == 11 || c == 12
+/-- what `.lstrip()` strips from a line (the table is regenerated from the code's behaviour) -/
+def pyWs (c : Nat) : Bool := Generated.lstripSet.contains c
 
-def lstrip (l : List Nat) : List Nat := l.dropWhile pyWs
+/-- what `.lstrip()` strips from a line of a text-mode file (`str.lstrip`: Unicode white space;
+    regenerated likewise, as code points) -/
+def pyWsT (c : Nat) : Bool := Generated.lstripSetT.contains c
+
+/-- what `.rstrip('\r\n')` strips (regenerated likewise) -/
+def lineEnd (c : Nat) : Bool := Generated.rstripSet.contains c
+
+def lstripBy (ws : Nat → Bool) (l : List Nat) : List Nat := l.dropWhile ws
+
+def rstripBy (rs : Nat → Bool) (l : List Nat) : List Nat := (l.reverse.dropWhile rs).reverse
+
+def lstrip (l : List Nat) : List Nat := lstripBy pyWs l
+
+/-- `line.lstrip().rstrip('\r\n')`: what `json.loads` is handed -/
+def lineNorm (ws : Nat → Bool) (l : List Nat) : List Nat := rstripBy lineEnd (lstripBy ws l)
 
 /-- draining `JSONLIterator.next` over the lines its `_line_iter` produces:
     (objects yielded, the error that ended the iteration if any) -/
-def consume {α ε : Type} (parse : List Nat → Except ε α) (ignore : Bool) :
+def consume {α ε : Type} (ws : Nat → Bool) (parse : List Nat → Except ε α) (ignore : Bool) :
     List (List Nat) → List α × Option ε
   | [] => ([], none)
   | l :: ls =>
-    if lstrip l = [] then consume parse ignore ls
-    else match parse (lstrip l) with
-      | .ok v => ((v :: (consume parse ignore ls).1), (consume parse ignore ls).2)
-      | .error e => if ignore then consume parse ignore ls else ([], some e)
+    if lineNorm ws l = [] then consume ws parse ignore ls
+    else match parse (lineNorm ws l) with
+      | .ok v => ((v :: (consume ws parse ignore ls).1), (consume ws parse ignore ls).2)
+      | .error e => if ignore then consume ws parse ignore ls else ([], some e)
 
 /-- iterating a binary file: pieces ending after each `\n`, line break kept -/
 def fileLinesB : List Nat → List (List Nat)
@@ -203,28 +308,122 @@ def fileLinesT : Bool → List Nat → List (List Nat)
     else consHead c (fileLinesT false cs)
 
 /-- forward mode, binary file -/
-def jsonlForwardB {α ε : Type} (parse : List Nat → Except ε α) (ignore : Bool) (c : List Nat) :=
-  consume parse ignore (fileLinesB c)
+def jsonlForwardB {α ε : Type} (ws : Nat → Bool) (parse : List Nat → Except ε α) (ignore : Bool) (c : List Nat) :=
+  consume ws parse ignore (fileLinesB c)
 
 /-- forward mode, text-mode file -/
-def jsonlForwardT {α ε : Type} (parse : List Nat → Except ε α) (ignore : Bool) (c : List Nat) :=
-  consume parse ignore (fileLinesT false c)
+def jsonlForwardT {α ε : Type} (ws : Nat → Bool) (parse : List Nat → Except ε α) (ignore : Bool) (c : List Nat) :=
+  consume ws parse ignore (fileLinesT false c)
 
 /-- reverse mode (either kind of file) with block size `bs` -/
-def jsonlReverse {α ε : Type} (parse : List Nat → Except ε α) (ignore : Bool) (bs : Nat) (c : List Nat) :=
-  consume parse ignore (reverseIterLines c bs)
+def jsonlReverse {α ε : Type} (ws : Nat → Bool) (parse : List Nat → Except ε α) (ignore : Bool) (bs : Nat) (c : List Nat) :=
+  consume ws parse ignore (reverseIterLines c bs)
 
+
+/-- reverse mode on a TEXT-mode file as the code does it: the byte lines of `reverse_iter_lines`,
+    each decoded (a line that does not decode would raise; `reverse_lines_text_no_error`), then `next` -/
+def jsonlReverseText {α ε : Type} (ws : Nat → Bool) (parse : List Nat → Except ε α) (ignore : Bool)
+    (bs : Nat) (c : List Nat) :=
+  consume ws parse ignore ((reverseIterLinesText c bs).filterMap id)
+
+/-- what one line contributes to the sequence of `next()` results: nothing (a blank line, or an
+    undecodable one under `ignore_errors`), an object, or the error `next()` raises in strict mode —
+    after which the caller may go on calling `next()`: the line iterator has moved past the line -/
+def outcomeOf {α ε : Type} (ws : Nat → Bool) (parse : List Nat → Except ε α) (ignore : Bool) (l : List Nat) :
+    Option (Except ε α) :=
+  if lineNorm ws l = [] then none
+  else match parse (lineNorm ws l) with
+    | .ok v => some (.ok v)
+    | .error e => if ignore then none else some (.error e)
+
+/-- the result of every `next()` call until StopIteration, errors included (iteration resumed
+    after each error) -/
+def outcomes {α ε : Type} (ws : Nat → Bool) (parse : List Nat → Except ε α) (ignore : Bool) (ls : List (List Nat)) :
+    List (Except ε α) :=
+  ls.filterMap (outcomeOf ws parse ignore)
+
+/-- draining with a plain `for` loop: the objects before the first error, and that error -/
+def untilError {α ε : Type} : List (Except ε α) → List α × Option ε
+  | [] => ([], none)
+  | .ok v :: r => (v :: (untilError r).1, (untilError r).2)
+  | .error e :: _ => ([], some e)
+
+/-- forward mode: `cur_byte_pos` (= `file.tell()`) read after each object a plain loop yields;
+    `pos` = offset of the start of the first line -/
+def consumePos {α ε : Type} (ws : Nat → Bool) (parse : List Nat → Except ε α) (ignore : Bool) : Nat → List (List Nat) → List Nat
+  | _, [] => []
+  | pos, l :: ls =>
+    if lineNorm ws l = [] then consumePos ws parse ignore (pos + l.length) ls
+    else match parse (lineNorm ws l) with
+      | .ok _ => (pos + l.length) :: consumePos ws parse ignore (pos + l.length) ls
+      | .error _ => if ignore then consumePos ws parse ignore (pos + l.length) ls else []
+
+def jsonlForwardPosB {α ε : Type} (ws : Nat → Bool) (parse : List Nat → Except ε α) (ignore : Bool) (c : List Nat) : List Nat :=
+  consumePos ws parse ignore 0 (fileLinesB c)
+
+/-! ### JSONLIterator(rel_seek=…): start somewhere inside a text-mode file -/
+
+/-- offset of the first `\n` / `\r` in `s` (universal newlines present both to
+    `_align_to_newline` as `'\n'`); `none`: there is none -/
+def firstBreak : List Nat → Option Nat
+  | [] => none
+  | c :: cs => if bytesBreak c then some 0 else (firstBreak cs).map (· + 1)
+
+/-- `_init_rel_seek` + `_align_to_newline` on a text-mode file of single-byte characters:
+    `fo.seek(target)`, read on until a block contains `'\n'`, `fo.seek` ON that line break.
+    When no line break follows the target: with `eofOk` the file is left at its end; without, the
+    `while '\n' not in cur` loop of the code never ends (`none`: outside the model's domain, the
+    harness does not generate it).  Which of the two the current code does is regenerated on every
+    run (`Generated.alignStopsAtEof`). -/
+def alignToNewlineE (eofOk : Bool) (c : List Nat) (target : Nat) : Option Nat :=
+  match firstBreak (c.drop target) with
+  | some i => some (target + i)
+  | none => if eofOk then some c.length else none
+
+def alignToNewline (c : List Nat) (target : Nat) : Option Nat :=
+  alignToNewlineE Generated.alignStopsAtEof c target
+
+/-- `JSONLIterator(f, ignore_errors, reverse, rel_seek)` drained, `target = int(size * rel_seek)`:
+    forward mode reads the lines from the aligned position on, reverse mode the lines before it -/
+def jsonlRelSeekE {α ε : Type} (eofOk : Bool) (ws : Nat → Bool) (parse : List Nat → Except ε α)
+    (ignore reverse : Bool) (bs : Nat) (c : List Nat) (target : Nat) : Option (List α × Option ε) :=
+  match alignToNewlineE eofOk c target with
+  | none => none
+  | some p =>
+    some (if reverse then consume ws parse ignore (reverseIterLinesFrom c p bs)
+          else consume ws parse ignore (fileLinesT false (c.drop p)))
+
+def jsonlRelSeek {α ε : Type} (ws : Nat → Bool) (parse : List Nat → Except ε α) (ignore reverse : Bool)
+    (bs : Nat) (c : List Nat) (target : Nat) : Option (List α × Option ε) :=
+  jsonlRelSeekE Generated.alignStopsAtEof ws parse ignore reverse bs c target
+
+/-- `rel_seek=0.0` is special-cased by `_init_rel_seek`: position 0, no alignment -/
+def jsonlRelSeekZero {α ε : Type} (ws : Nat → Bool) (parse : List Nat → Except ε α) (ignore reverse : Bool) (bs : Nat)
+    (c : List Nat) : List α × Option ε :=
+  if reverse then consume ws parse ignore (reverseIterLinesFrom c 0 bs)
+  else consume ws parse ignore (fileLinesT false c)
 
 /-- SPEC: the object a line contributes when errors are ignored: none for a blank line
-    (`line.lstrip()` empty) and for an undecodable one -/
-def objOf {α ε : Type} (parse : List Nat → Except ε α) (l : List Nat) : Option α :=
-  if lstrip l = [] then none
-  else match parse (lstrip l) with
+    (nothing left after `line.lstrip().rstrip('\r\n')`) and for an undecodable one -/
+def objOf {α ε : Type} (ws : Nat → Bool) (parse : List Nat → Except ε α) (l : List Nat) : Option α :=
+  if lineNorm ws l = [] then none
+  else match parse (lineNorm ws l) with
     | .ok v => some v
     | .error _ => none
 
-/-- assumption on `json.loads`: a trailing line break (`\n` or `\r\n`) does not change the result -/
-def IgnoresBreak {α ε : Type} (parse : List Nat → Except ε α) : Prop :=
-  ∀ x, parse (x ++ [10]) = parse x ∧ parse (x ++ [13, 10]) = parse x
+/-! ### indent -/
+
+/-- `newline.join(parts)` -/
+def joinWith (sep : List Nat) : List (List Nat) → List Nat
+  | [] => []
+  | [l] => l
+  | l :: l' :: ls => l ++ sep ++ joinWith sep (l' :: ls)
+
+/-- `boltons.strutils.indent(text, margin, newline, key)` -/
+def indent (key : List Nat → Bool) (margin newline t : List Nat) : List Nat :=
+  joinWith newline ((iterSplitlines t).map fun l => if key l then margin ++ l else l)
+
+/-- the default `key=bool` -/
+def keyBool (l : List Nat) : Bool := !l.isEmpty
 
 end C19
